@@ -755,3 +755,17 @@ T('e_resources_copy_filled_by_a_function_of_another_module', ['C11'],
   (S, 'def get_fb(f, drop_self=True):\n', _SINTER_HELPER),
   (R, 'import re\n', 'import re\nfrom . import sinter\n'),
   (R, _RESOURCES, "        self.resources = sinter.fill_mapping(dict(getattr(app, 'resources', {})), getattr(route, 'resources', {}))\n"))
+B('e_resources_helper_in_place_union_on_its_argument', ['C11'], 'R11.a',
+  (R, _CLS, 'def overlay_resources(own, inherited):\n    merged = own if own is not None else {}\n'
+            '    merged |= {k: v for k, v in inherited.items() if k not in merged}\n    return merged\n\n\n' + _CLS),
+  (R, _RESOURCES, _OVERLAY_CALL))
+B('e_resources_procedure_fills_the_routes_mapping_then_copied', ['C11'], 'R11.a',
+  (R, _CLS, 'def fill_missing(target, source):\n    for name in source:\n        if name not in target:\n'
+            '            target[name] = source[name]\n\n\n' + _CLS),
+  (R, _RESOURCES, "        route_resources = getattr(route, 'resources', {})\n"
+                  "        fill_missing(route_resources, getattr(app, 'resources', {}))\n        self.resources = dict(route_resources)\n"))
+T('e_resources_procedure_fills_a_copy_of_the_routes_mapping', ['C11'],
+  (R, _CLS, 'def fill_missing(target, source):\n    for name in source:\n        if name not in target:\n'
+            '            target[name] = source[name]\n\n\n' + _CLS),
+  (R, _RESOURCES, "        route_resources = dict(getattr(route, 'resources', {}))\n"
+                  "        fill_missing(route_resources, getattr(app, 'resources', {}))\n        self.resources = route_resources\n"))
